@@ -346,6 +346,15 @@ func (x *EvalCtx) evalIndex(e *Expr) TV {
 func (c *Enc) sliceElem(st *State, heap string, es Sort, sl Term, i Term) Term {
 	arr := Term{app("sl-arr", sl), SInt}
 	off := Term{app("sl-off", sl), SInt}
+	// a literal window (mk-slice A (+ O F) n n) of another slice: element i is element F+i of the base window, so
+	// that its position has the same shape idx(O, ·) as every other access to the base slice (trigger matching)
+	if head, args, ok := splitTop(sl.S); ok && head == "mk-slice" && len(args) == 4 {
+		arr = Term{args[0], SInt}
+		off = Term{args[1], SInt}
+		if h2, a2, ok2 := splitTop(args[1]); ok2 && h2 == "+" && len(a2) == 2 {
+			return Select(Select(c.get(st, heap), arr, ArraySort(SInt, es)), pos(Term{a2[0], SInt}, Add(Term{a2[1], SInt}, i)), es)
+		}
+	}
 	return Select(Select(c.get(st, heap), arr, ArraySort(SInt, es)), pos(off, i), es)
 }
 
@@ -526,6 +535,15 @@ func (x *EvalCtx) evalCall(e *Expr) TV {
 		}
 		heap, s := c.boxHeap(pt.Elem())
 		return TV{Select(c.get(x.st, heap), a.T, s), pt.Elem()}
+	case "window":
+		// window(s, from, n): the sub-slice s[from : from+n] as a value (no bounds obligation: a specification term)
+		a := x.eval(e.Args[0])
+		from := x.eval(e.Args[1])
+		n := x.eval(e.Args[2])
+		if a.T.Sort != SSlice {
+			efail("window of non-slice")
+		}
+		return TV{Term{app("mk-slice", slArr(a.T), Add(slOff(a.T), from.T), n.T, n.T), SSlice}, a.Ty}
 	case "cap":
 		a := x.eval(e.Args[0])
 		if a.T.Sort != SSlice {
